@@ -530,7 +530,8 @@ def gen_trench(rng, ctx, cx, cy, size, n, max_bend_deg=50.0):
     pts = [(0.0, 0.0)]
     a = az
     for _ in range(n - 1):
-        pts.append((pts[-1][0] + seg * rng.uniform(0.6, 1.2) * math.cos(a), pts[-1][1] + seg * rng.uniform(0.6, 1.2) * math.sin(a)))
+        sl = seg * rng.uniform(0.6, 1.2)
+        pts.append((pts[-1][0] + sl * math.cos(a), pts[-1][1] + sl * math.sin(a)))
         a += math.radians(rng.uniform(-max_bend_deg, max_bend_deg))
     mx = sum(p[0] for p in pts) / n
     my = sum(p[1] for p in pts) / n
